@@ -16,6 +16,52 @@ from cxx2coq import Unsupported, qual, norm_type, ctype
 from cxx2gal import SKIP, CASTS, ite, pretty, TYPEDEFS
 
 
+def c_unescape(lit):
+    """the characters of a C string literal as clang prints it ("..." with C escapes)"""
+    if not (lit.startswith('"') and lit.endswith('"')):
+        raise Unsupported("string literal %s" % lit)
+    body, out, i = lit[1:-1], "", 0
+    simple = {"n": "\n", "t": "\t", "r": "\r", "\\": "\\", '"': '"', "'": "'", "0": "\0", "a": "\a", "b": "\b", "f": "\f", "v": "\v"}
+    while i < len(body):
+        ch = body[i]
+        if ch != "\\":
+            out += ch
+            i += 1
+            continue
+        m = re.match(r"[0-7]{1,3}", body[i + 1:])
+        if m:
+            out += chr(int(m.group(0), 8))
+            i += 1 + len(m.group(0))
+            continue
+        m = re.match(r"x([0-9a-fA-F]+)", body[i + 1:])
+        if m:
+            out += chr(int(m.group(1), 16))
+            i += 1 + len(m.group(0))
+            continue
+        if body[i + 1] in simple:
+            out += simple[body[i + 1]]
+            i += 2
+            continue
+        raise Unsupported("escape in string literal %s" % lit)
+    return out
+
+
+def coq_text(t):
+    """a Coq string expression for text t (control characters written as character codes)"""
+    parts, cur = [], ""
+    for ch in t:
+        if 32 <= ord(ch) < 127:
+            cur += ch
+        else:
+            if cur:
+                parts.append(cxx2coq.coq_string(cur))
+                cur = ""
+            parts.append("String (Ascii.ascii_of_nat %d) EmptyString" % ord(ch))
+    if cur or not parts:
+        parts.append(cxx2coq.coq_string(cur))
+    return "(" + " ++ ".join("(%s)" % p for p in parts) + ")%string"
+
+
 class HeapFn(cxx2gal.LoopFn):
     MEM_T = "heap"
 
@@ -48,6 +94,8 @@ class HeapFn(cxx2gal.LoopFn):
         return g
 
     def coqtype_of(self, q):
+        if q.strip().endswith("&") and self.is_record(q):
+            return "hptr"                    # a reference to a modelled record: the address of the object
         q = TYPEDEFS.get(norm_type(q), q)
         if self.is_rec_ptr(q):
             return "hptr"
@@ -59,6 +107,8 @@ class HeapFn(cxx2gal.LoopFn):
         raise Unsupported("variable of type %s" % q)
 
     def cells(self, q):
+        if q.strip().endswith("&"):
+            return 1                         # a reference member: one cell holding the address
         q = norm_type(q)
         m = re.fullmatch(r"(.+?)\s*\[(\d+)\]", q)
         if m:
@@ -154,6 +204,10 @@ class HeapFn(cxx2gal.LoopFn):
             raise Unsupported("this as an lvalue")
         if kd == "DeclRefExpr" and n["referencedDecl"].get("kind") == "VarDecl" and self.gvar(n["referencedDecl"]["name"]):
             return k(("cell", self.gvar(n["referencedDecl"]["name"]), qual(n)))     # a global object: its cells are in the heap
+        if kd == "DeclRefExpr" and n["referencedDecl"].get("kind") == "ParmVarDecl":
+            rq = (n["referencedDecl"].get("type") or {}).get("qualType", "")
+            if rq.strip().endswith("&") and self.is_record(rq) and self.ident(n["referencedDecl"]["name"]) in self.vars:
+                return k(("cell", self.ident(n["referencedDecl"]["name"]), qual(n)))   # a reference parameter: the object's address
         return super().L(n, k)
 
     def coqtype_safe(self, q):
@@ -289,6 +343,14 @@ class HeapFn(cxx2gal.LoopFn):
                     x = self.inner(x)[0]
                 con = "HFreeRec" if self.coqtype_safe(qual(x)) == "hptr" else "HFreeBuf"
                 return self.E(x, lambda p: self.E(inn[2], lambda sz: "(let evs := evs ++ [%s %s %s] in %s)" % (con, p, sz, k("0"))))
+            if isinstance(spec0, dict) and spec0.get("print_event"):
+                # output->print("literal") / print(number): the ghost event PText "literal" / PNum value
+                a = inn[1]
+                while a.get("kind") in SKIP or (a.get("kind") in CASTS and a.get("castKind") in ("ArrayToPointerDecay", "NoOp")):
+                    a = self.inner(a)[0]
+                if a.get("kind") == "StringLiteral":
+                    return "(let evs := evs ++ [PText %s] in %s)" % (coq_text(c_unescape(a["value"])), k("0"))
+                return self.E(inn[1], lambda v: "(let evs := evs ++ [PNum %s] in %s)" % (v, k("0")))
             if isinstance(spec0, dict) and spec0.get("recv_field"):
                 # an accessor of a modelled record: the call is the receiver's field
                 rec, fld = spec0["recv_field"]
@@ -465,7 +527,7 @@ class HeapFn(cxx2gal.LoopFn):
                 if spec.get("writes") or self.cfg.get("ghosts"):
                     flags.add("store")
             if isinstance(spec, dict) and (spec.get("method") or spec.get("alloc") or spec.get("free") or spec.get("event") or spec.get("abort")
-                                           or spec.get("pop")):
+                                           or spec.get("pop") or spec.get("print_event")):
                 for g, _ in self.cfg.get("ghosts", []):
                     assigned.add(g)
                     refs.add(g)
@@ -603,7 +665,9 @@ class HeapTranslator(cxx2coq.Translator):
 
     @staticmethod
     def _parent_is(d, docs, cls):
-        return True
+        """the method belongs to class cls: its mangled name starts with the length-prefixed class and function names"""
+        fn = d.get("name", "")
+        return bool(re.match(r"_ZNK?%d%s%d%s" % (len(cls), re.escape(cls), len(fn), re.escape(fn)), d.get("mangledName", "")))
 
 
 def layouts_text(tr):
